@@ -290,9 +290,14 @@ type typedFns[T number] struct {
 // scheduler, see mergeYield); affinePure is the same arithmetic for the model.
 func affine[T number](v, d T) T {
 	mergeYield()
-	return v*3 + d
+	return affinePure(v, d)
 }
 
+// One machine-code body for library and model: with NaN operands the payload and sign of
+// the result depend on operand order and instruction selection, which may differ between
+// two inlined copies of the same expression.
+//
+//go:noinline
 func affinePure[T number](v, d T) T { return v*3 + d }
 
 // mergeYield is a harness yield point inside the user-supplied merge functions: the
